@@ -59,6 +59,8 @@ WiringPoints ==
   \* a stream given by its member only (type left unset) next to a shorthand for the OTHER streams: the member wins for that stream
   \cup {Opt([<<U, U, U>> EXCEPT ![s] = r], sh, -1, FALSE, TRUE) : s \in 1..3, r \in {R(0, HFD, 0, ""), R(0, 0, FFD, ""), R(0, 0, 0, PATHS)},
           sh \in {[NoSh EXCEPT !.parent = TRUE], [NoSh EXCEPT !.discard = TRUE]}}
+  \* a path that names a FIFO: opened in the stream's direction like any other path (read for stdin, write for the outputs)
+  \cup {Opt([<<U, U, U>> EXCEPT ![s] = R(T_PATH, 0, 0, "/d/fifo")], NoSh, -1, FALSE, TRUE) : s \in 1..3}
   \* a handle / a FILE whose descriptor is not open (closed underneath a stale FILE object): an unusable target, for any stream
   \cup {Opt([<<U, U, U>> EXCEPT ![s] = r], NoSh, -1, FALSE, TRUE) : s \in 1..3, r \in {R(T_FILE, 0, DEADFD, ""), R(T_HANDLE, DEADFD, 0, ""), R(T_DEFAULT, 0, DEADFD, "")}}
   \* a caller whose descriptor table is full below 1040: every descriptor the library creates, and the handle the caller
